@@ -20,17 +20,17 @@ CLAIMED = {
     "C13": dict(
         text="Coq theorems for all tableau sizes: each of the 8 gate kernels is the Clifford conjugation (sign included) of the Pauli string a row denotes; "
              "conjugation tables proved against Gaussian-integer matrices; conjugation is an injective homomorphism of the n-qubit Pauli group preserving commutation, hence a gate maps the generated group onto exactly the conjugated group and keeps the generators commuting and independent; the row product implements the Pauli product with the phase rule as coded; tensor product / add_qubit generate the product group (rows are the identity-padded rows); Gaussian elimination preserves the generated group (signs included), yields the unique reduced row echelon form, and therefore == holds iff the two groups are equal and contains(g) iff g is in the group (C13_teq_iff_same_group, C13_contains_iff_in_group, C13_rref_unique). "
-             "The kernels are regenerated from stabilizer_states.py on every run and proved equal to the model; exact model/implementation correspondence for gates, tensor, add_qubit, Gaussian elimination, ==, contains, row product (incl. structured +-i imbalances).",
+             "The kernels are regenerated from stabilizer_states.py on every run and proved equal to the model; exact model/implementation correspondence for gates, tensor, add_qubit, Gaussian elimination, ==, contains, row product (incl. structured +-i imbalances); value semantics of the model checked on the objects: copies, products (also with the empty state) and queries share no storage with their operands.",
         design="4/C13",
         note="Trusted: Coq kernel+vm_compute; ast translator for the gate kernels; numpy semantics of masks/views; group<->state link checked numerically (oracle), not proved.",
         technique="Coq proof (per-row conjugation theorems, all n) + source-to-Coq translator with generated equality lemmas + vm_compute correspondence"),
     "C01": dict(
-        text="Coq theorems over Model V for every network, program and placement history (all seven merge cases). Layer 1 (placement): each native operation issues its engine call at exactly the register position whose recorded identity is the physical qubit the handle denotes (control/target order preserved); merges preserve the bookkeeping invariant and the identity records; sending hands over the same physical qubit; identities are never duplicated. Layer 2 (C01_location_transparency): the product of the stabilizer groups of all registers of all nodes, each placed on the identities it records, equals the stabilizer group of an ideal single register running the translated program with the same coins, and the list of measurement outcomes is identical; C01_reported_outcome_possible: a reported outcome is never the impossible one (group criterion). Composition of the C13/C14 group theorems. Not formalised: stabilizer group <-> Hilbert-space vector and the Born rule (same status as C13/C14); other engines go through C15. Tie: exact model/implementation dump equality after every operation (direct calls and real PB), and an independent state-vector oracle comparing the joint state after EVERY operation.",
+        text="Coq theorems over Model V (seven client operations: create, create register, create in a register, one- and two-qubit gates, send, measure) for every network, program and placement history (all seven merge cases). Layer 1 (placement): each native operation issues its engine call at exactly the register position whose recorded identity is the physical qubit the handle denotes (control/target order preserved); merges preserve the bookkeeping invariant and the identity records; sending hands over the same physical qubit; identities are never duplicated. Layer 2 (C01_location_transparency): the product of the stabilizer groups of all registers of all nodes, each placed on the identities it records, equals the stabilizer group of an ideal single register running the translated program with the same coins, and the list of measurement outcomes is identical; C01_reported_outcome_possible: a reported outcome is never the impossible one (group criterion). Composition of the C13/C14 group theorems. Not formalised: stabilizer group <-> Hilbert-space vector and the Born rule (same status as C13/C14); other engines go through C15. Tie: exact model/implementation dump equality after every operation (direct calls and real PB), and an independent state-vector oracle comparing the joint state after EVERY operation.",
         design="4/C01",
         note="Trusted: Coq kernel+vm_compute; in-process harness; Hilbert space not formalised (stabilizer group <-> state is textbook, checked numerically by the oracle); the ideal machine is a specification.",
         technique="Coq proof (placement refinement with ghost qubit identities + joint-group = ideal-group simulation, induction over operation lists) + vm_compute correspondence + state-vector oracle"),
     "C02": dict(
-        text="Coq theorem over Model V: an explicit inductive invariant (per node: id uniqueness, register table consistency, positions of a register's simulated qubits injective/bounded/as many as the register size; network-wide: backing map held qubit -> simulated qubit total, injective and onto, ghost identities aligned) holds in every state reachable by ANY operation list on ANY network (failed operations included); corollaries: backed by exactly one existing simulated qubit, no sharing/no orphan, positions are a permutation of 0..k-1, ids unique, exact population deltas per operation. Tie: dump equality after every operation + an id()-based walk of the real object graph evaluating the same invariant.",
+        text="Coq theorem over Model V: an explicit inductive invariant (per node: id uniqueness, register table consistency, positions of a register's simulated qubits injective/bounded/as many as the register size; network-wide: backing map held qubit -> simulated qubit total, injective and onto, ghost identities aligned) holds in every state reachable by ANY list of the seven client operations (create, create register, create in a register, gates, send, measure) on ANY network (failed operations included); corollaries: backed by exactly one existing simulated qubit, no sharing/no orphan, positions are a permutation of 0..k-1, ids unique, exact population deltas per operation. Tie: dump equality after every operation + an id()-based walk of the real object graph evaluating the same invariant.",
         design="4/C02",
         note="Trusted: Coq kernel; in-process harness (direct wiring / real PB in memory, virtual clock, scripted coin); sequential semantics (quiescent points only); tableau shape facts are not part of this invariant.",
         technique="Coq proof (inductive invariant preserved by every case of every operation, induction over operation lists) + vm_compute correspondence + object-graph oracle"),
